@@ -63,10 +63,21 @@ def _vec_of_tuples(b):
     return out
 
 
+def registry_body(ctx, name):
+    """the body that builds the registry `name`: the initialiser of a lazy_static!, or the value of a `const` / `static` item of
+    that name (an array instead of a lazily built Vec)"""
+    cands = [b for p, b in sorted(ctx.facts.bodies.items())
+             if re.search(r'(^|::)%s as core::ops::Deref>::deref::__static_ref_initialize$' % name, p)
+             or (b.kind in ('const', 'static') and re.search(r'(^|::)%s$' % name, p))]
+    if len(cands) != 1:
+        raise AnchorLost('expected exactly one definition of the registry %s (lazy_static initialiser or const / static item), found %d' % (name, len(cands)))
+    return cands[0]
+
+
 @cached
 def regex_parsers(ctx):
     """ordered [(family, parser fn path)] from TOKEN_REGEX_PARSER"""
-    b = ctx.facts.one(r'TOKEN_REGEX_PARSER as core::ops::Deref>::deref::__static_ref_initialize$')
+    b = registry_body(ctx, 'TOKEN_REGEX_PARSER')
     out = _vec_of_tuples(b)
     if any(k is None or f is None for k, f in out):
         raise AnchorLost('TOKEN_REGEX_PARSER: non-constant entry')
@@ -75,7 +86,7 @@ def regex_parsers(ctx):
 
 @cached
 def language_parsers(ctx):
-    b = ctx.facts.one(r'LANGUAGE_BASED_TOKEN_PARSER as core::ops::Deref>::deref::__static_ref_initialize$')
+    b = registry_body(ctx, 'LANGUAGE_BASED_TOKEN_PARSER')
     return [f for _, f in _vec_of_tuples(b)]
 
 
